@@ -54,7 +54,9 @@ class Protocol:
         waits = [s for s in self.S["pop"] if s.kind == "wait"]
         if len({s.resume for s in waits}) != 1:
             raise Exception(f"pop: expected exactly one wait site, got {[s.resume for s in waits]}")
-        self.S["pop_resume"] = bm.summarize("pop", self.g, entry_bb=waits[0].resume, resume=True)
+        if len({(s.info.get("resume_body"), s.resume) for s in waits}) != 1:
+            raise Exception("pop: several wait sites")
+        self.S["pop_resume"] = bm.summarize_resume(waits[0], self.g)
         self.init_mk = bm.initial_market(z3.IntVal(T))
         self.P0 = z3.Int("P0")  # size of the initial batch pushed by spawn()
         self.n_summaries = sum(len(v) for v in self.S.values())
